@@ -30,9 +30,13 @@ class HistRunner:
     """the real SocketWrapper over a ScriptedSocket, driven one operation at a time with the history invariant
     evaluated after every step (used by the op-list oracle and by the Hypothesis state machine alike)"""
 
-    def __init__(self, bufsize, init, empty):
+    def __init__(self, bufsize, init, empty, peek=True):
         from pyrtcm.socketwrapper import SocketWrapper
 
+        # peek=False: the harness never looks at the wrapper's buffer (looking is an API call too, and may tidy up
+        # internal state): delivered bytes must be a prefix of what was received after every step, and equal to it
+        # once the peer has closed and the application has read everything
+        self.peek = peek
         self.bufsize = bufsize
         self.sock = ScriptedSocket([bytes.fromhex(e[1]) if e[0] == "send" else e[0] for e in init])
         self.sock.empty_means = empty
@@ -52,6 +56,10 @@ class HistRunner:
 
     def inv(self, step):
         w, sock = self.w, self.sock
+        if not self.peek:
+            if not bytes(sock.handed).startswith(bytes(self.delivered)):
+                raise Fail("bytes-lost-duplicated-or-reordered", f"after step {step}: the {len(self.delivered)} delivered bytes are not the first bytes of the {len(sock.handed)} received; bufsize {self.bufsize}")
+            return
         if bytes(self.delivered) + bytes(w.buffer) != bytes(sock.handed):
             lost = len(sock.handed) - len(self.delivered) - len(w.buffer)
             raise Fail("bytes-lost-duplicated-or-reordered", f"after step {step}: delivered {len(self.delivered)} + buffered {len(w.buffer)} != received {len(sock.handed)} (difference {lost}) or content differs; bufsize {self.bufsize}")
@@ -76,7 +84,7 @@ class HistRunner:
             self.inv(f"{k}:write")
             return
         l0 = len(sock.log)
-        buf0 = len(w.buffer)
+        buf0 = len(w.buffer) if self.peek else len(sock.handed) - len(self.delivered)
         h0 = len(sock.handed)
         if kind == "read":
             n = op[1]
@@ -120,10 +128,22 @@ def o_hist(case):
     if "machine_stats" in case:
         ms = case["machine_stats"]
         return Res(False, ["state-machine-run"], evals=ms["steps"])
-    h = HistRunner(case["bufsize"], case["init"], case["empty"])
+    h = HistRunner(case["bufsize"], case["init"], case["empty"], peek=case.get("peek", True))
     try:
         for op in case["ops"]:
             h.step(op)
+        if not h.peek:
+            # the peer closes; the application reads until nothing comes any more: everything received was delivered
+            h.sock.push("close")
+            # (byte by byte: a read for more than is left comes back empty and leaves the rest buffered)
+            for _ in range(sum(len(o[1]) // 2 for o in case["init"] + case["ops"] if o[0] == "send") + 64):
+                r = h.w.read(1)
+                h.delivered += r
+                if not r:
+                    break
+            if bytes(h.delivered) != bytes(h.sock.handed):
+                raise Fail("bytes-lost-duplicated-or-reordered", f"after the peer closed and everything was read: delivered {len(h.delivered)} bytes, received {len(h.sock.handed)} (or content differs); bufsize {case['bufsize']}, the buffer was never inspected")
+            h.cls.add("buffer-never-inspected")
     finally:
         h.close()
     cls = h.cls
@@ -280,7 +300,7 @@ def s_hist(draw, tier):
     if draw(st.integers(0, 3)) == 0:
         k = draw(st.integers(0, len(ops)))
         ops = ops[:k] + [["close"]] + ops[k:]
-    return {"bufsize": bufsize, "init": init, "ops": ops, "empty": draw(st.sampled_from(["timeout", "timeout", "eof"]))}
+    return {"bufsize": bufsize, "init": init, "ops": ops, "empty": draw(st.sampled_from(["timeout", "timeout", "eof"])), "peek": draw(st.sampled_from([True, True, False]))}
 
 
 # ------------------------------------------------------------------ reader(socket) == reader(file)
